@@ -28,6 +28,9 @@ class FakeS3:
         return httpx.MockTransport(self.handle)
 
     async def handle(self, request):
+        act = self.plan(request) if getattr(self, 'plan', None) else None
+        if act is not None:
+            return await apply_fault(self, request, act)
         body = await request.aread() if hasattr(request, 'aread') else request.read()
         return self._respond(request, body)
 
@@ -108,3 +111,37 @@ def client(fake, **kw):
                          region=kw.pop('region', 'eu-test-1'), host=kw.pop('host', 's3.example.test:9000'), scheme=kw.pop('scheme', 'http'))
     c._client = httpx.AsyncClient(transport=fake.transport(), timeout=None, event_hooks={'response': [s3c._raise_for_status_hook]})
     return c
+
+
+async def apply_fault(fake, request, act):
+    """act: ('status', code, after_chunks) | ('drop', after_chunks) | ('cut', after_bytes, full_bytes) | ('auth',)"""
+    fake.calls += 1
+    fake.op_calls = getattr(fake, 'op_calls', 0) + 1
+    if fake.op_calls > getattr(fake, 'op_limit', 64):
+        raise Runaway()
+    kind = act[0]
+    if kind in ('status', 'drop'):
+        n = 0
+        want = act[2] if kind == 'status' else act[1]
+        if want > 0:
+            async for _ in request.stream:
+                n += 1
+                if n >= want:
+                    break
+        if kind == 'drop':
+            raise httpx.ReadError('connection dropped by the fault script', request=request)
+        headers = {'retry-after': '1'} if act[1] == 429 else {}
+        return httpx.Response(act[1], headers=headers, json={'status': act[1], 'code': 'fault', 'message': 'fault script'})
+    if kind == 'auth':
+        await request.aread()
+        return httpx.Response(401, json={'status': 401, 'code': 'expired_auth_token', 'message': 'fault script'})
+    if kind == 'cut':
+        await request.aread()
+        full, upto = act[2], act[1]
+
+        async def body():
+            if upto > 0:
+                yield full[:upto]
+            raise httpx.ReadError('response cut by the fault script', request=request)
+        return httpx.Response(200, headers={'content-length': str(len(full))}, content=body())
+    raise ValueError(act)
